@@ -310,7 +310,7 @@ def e(ctx):
 
 
 def _only_logs(st):
-    if st is None:
+    if st is None or isinstance(st, ast.Pass):
         return True
     if isinstance(st, ast.Expr) and isinstance(st.value, ast.Call) and is_log_call(st.value):
         return True
